@@ -275,12 +275,12 @@ const hasMonotonic = 1 << 63
 
 func (it *Interp) timeNow() Val {
 	// monotonic representation: wall = hasMonotonic | sec33<<30 | nsec ; ext = monotonic ns
-	it.stub("time.Now = strictly increasing concrete instants (1 ms apart)")
+	it.stub("time.Now = strictly increasing concrete instants (1 µs apart)")
 	it.nClock++
 	secs := uint64(1_700_000_000 - 59453308800 + 62135596800) // some 2023 instant relative to 1885
 	secs = uint64(4_354_000_000) & ((1 << 33) - 1)
 	wall := uint64(hasMonotonic) | secs<<30
-	ext := uint64(it.nClock) * 1_000_000
+	ext := uint64(it.nClock) * 1_000
 	return Agg{CInt(64, wall), CInt(64, ext), Ptr{}}
 }
 
@@ -288,7 +288,7 @@ type tickerState struct{ ch *ChanObj }
 
 func (it *Interp) newTicker(d Val) Val {
 	it.nextObj++
-	ch := &ChanObj{ID: it.nextObj, Cap: 1}
+	ch := &ChanObj{ID: it.nextObj, Cap: 1, Ticker: true, Budget: 2}
 	tp := it.prog.ImportedPackage("time").Type("Ticker").Type()
 	o := it.allocType(tp, "time.NewTicker")
 	o.Slots[0] = ch
